@@ -1826,3 +1826,37 @@ variant('t-liveness-predicate-through-a-local', ['C15'], 'rsocket/rsocket_client
         """        alive = bool(self._is_server_alive)
         return alive
 """, kind='twin')
+
+# round 8: C16.f the frame logger cannot fail on the content of a frame
+variant('b-error-frame-logged-as-text', ['C16'], 'rsocket/frame_logger.py',
+        """        frame.error_code,
+        safe_len(frame.data)
+""", """        frame.error_code,
+        (frame.data or b'').decode('utf-8')
+""", ('C16.f', 'log_error'))
+variant('t-error-frame-logged-as-lenient-text', ['C16'], 'rsocket/frame_logger.py',
+        """        frame.error_code,
+        safe_len(frame.data)
+""", """        frame.error_code,
+        (frame.data or b'').decode('utf-8', errors='replace')
+""", kind='twin')
+
+# round 8: C18.k no wire buffer becomes a dictionary key
+variant('b-custom-mime-name-stays-a-slice', ['C18'], 'rsocket/helpers.py',
+        "        metadata_encoding = bytes(buffer[1:1 + real_mime_type_length])",
+        "        metadata_encoding = buffer[1:1 + real_mime_type_length]", ('C18.k', 'hashes a wire buffer'))
+variant_multi('b-custom-mime-name-copied-at-one-lookup-only', ['C18'], [
+    ('rsocket/helpers.py', "        metadata_encoding = bytes(buffer[1:1 + real_mime_type_length])",
+     "        metadata_encoding = buffer[1:1 + real_mime_type_length]"),
+    ('rsocket/extensions/composite_metadata.py',
+     "    return metadata_item_factory_by_type.get(metadata_encoding, CompositeMetadataItem)",
+     "    return metadata_item_factory_by_type.get(bytes(metadata_encoding), CompositeMetadataItem)")],
+    ('C18.k', 'get_by_name'))
+variant('b-route-looked-up-by-raw-tag', ['C18'], 'rsocket/extensions/helpers.py',
+        "            return item.tags[0].decode()", "            return _routes.get(item.tags[0], item.tags[0]).decode()",
+        ('C18.k', 'hashes a wire buffer'))
+variant_multi('t-custom-mime-name-copied-by-the-caller', ['C18'], [
+    ('rsocket/helpers.py', "        metadata_encoding = bytes(buffer[1:1 + real_mime_type_length])",
+     "        metadata_encoding = buffer[1:1 + real_mime_type_length]"),
+    ('rsocket/helpers.py', "    return metadata_encoding, offset\n", "    return bytes(metadata_encoding), offset\n")],
+    kind='twin')
